@@ -35,7 +35,7 @@ Definition env_ok (c : c2_case) : bool :=
   match c2_vals c with [] => true | _ => env_wf (env_of (c2_prog c) (ao_nodes (c2_ana c)) (c2_enums c)) end.
 
 Definition chk (c : c2_case) : bool :=
-  ana_cross (c2_prog c) (c2_ana c) && forallb (doc_ok c) (c2_docs c) && env_ok c && forallb (val_ok c) (c2_vals c).
+  ana_cross_e (c2_prog c) (c2_enums c) (c2_ana c) && forallb (doc_ok c) (c2_docs c) && env_ok c && forallb (val_ok c) (c2_vals c).
 
 Fixpoint mism_from (n : N) (cases : list c2_case) : list N :=
   match cases with [] => [] | c :: r => if chk c then mism_from (N.succ n) r else n :: mism_from (N.succ n) r end.
